@@ -208,3 +208,68 @@ package vm
 //@     invariant forall a machine.AccountAddress, x machine.Asset :: {vcred(m.Postings, a, x)} vcred(m.Postings, a, x) == vcred(old(m.Postings), a, x) + ((a == dest && x == funding.Asset) ? total_upto(funding.Parts, k) : 0)
 //@     invariant forall j int :: {m.Postings[j]} 0 <= j && j < len(old(m.Postings)) ==> m.Postings[j] == old(m.Postings)[j]
 //@     invariant forall j int :: {m.Postings[j]} len(old(m.Postings)) <= j && j < len(old(m.Postings)) + k ==> m.Postings[j].Source == funding.Parts[j - len(old(m.Postings))].Account && m.Postings[j].Destination == dest && m.Postings[j].Asset == funding.Asset && m.Postings[j].Amount == funding.Parts[j - len(old(m.Postings))].Amount
+
+// ---- resource resolution (machine.go: ResolveResources) — C27 ---------------------------------------------------
+// Trusted about compiler output (wfResources): every resource refers only to EARLIER resources, and to resources that the
+// program declares with the type the use demands (an account where an account is dereferenced, an asset where an asset is).
+// Trusted about the variables handed in (varsOK, established by Program.ParseVariablesJSON): no nil value, and a variable
+// declared as account / asset holds an account / asset.
+
+//@ define declAccount(r program.Resource) bool = (is(r, program.Constant) && is(r.(program.Constant).Inner, machine.AccountAddress)) || (is(r, program.Variable) && r.(program.Variable).Typ == machine.TypeAccount) || (is(r, program.VariableAccountMetadata) && r.(program.VariableAccountMetadata).Typ == machine.TypeAccount)
+//@ define declAsset(r program.Resource) bool = (is(r, program.Constant) && is(r.(program.Constant).Inner, machine.Asset)) || (is(r, program.Variable) && r.(program.Variable).Typ == machine.TypeAsset) || (is(r, program.VariableAccountMetadata) && r.(program.VariableAccountMetadata).Typ == machine.TypeAsset)
+//@ define wfResources(u []program.Resource) bool = forall i int :: {u[i]} 0 <= i && i < len(u) ==> u[i] != nil && (is(u[i], program.Constant) ==> u[i].(program.Constant).Inner != nil) && (is(u[i], program.VariableAccountMetadata) ==> u[i].(program.VariableAccountMetadata).Account < i && declAccount(u[u[i].(program.VariableAccountMetadata).Account])) && (is(u[i], program.VariableAccountBalance) ==> u[i].(program.VariableAccountBalance).Account < i && declAccount(u[u[i].(program.VariableAccountBalance).Account])) && (is(u[i], program.Monetary) ==> u[i].(program.Monetary).Asset < i && declAsset(u[u[i].(program.Monetary).Asset]))
+//@ define resolvedOK(rs []machine.Value, u []program.Resource) bool = forall j int :: {rs[j]} 0 <= j && j < len(rs) ==> rs[j] != nil && (declAccount(u[j]) ==> is(rs[j], machine.AccountAddress)) && (declAsset(u[j]) ==> is(rs[j], machine.Asset)) && ((is(u[j], program.VariableAccountBalance) || is(u[j], program.Monetary)) ==> is(rs[j], machine.Monetary))
+//@ define varsOK(vars map[string]machine.Value, u []program.Resource) bool = (forall k string :: {has(vars, k)} has(vars, k) ==> vars[k] != nil) && (forall i int :: {u[i]} 0 <= i && i < len(u) && is(u[i], program.Variable) && has(vars, u[i].(program.Variable).Name) ==> (u[i].(program.Variable).Typ == machine.TypeAccount ==> is(vars[u[i].(program.Variable).Name], machine.AccountAddress)) && (u[i].(program.Variable).Typ == machine.TypeAsset ==> is(vars[u[i].(program.Variable).Name], machine.Asset)))
+
+// every recorded balance slot is the index of an already resolved monetary resource
+//@ define balanceSlotsOK(urb map[string][]int, rs []machine.Value) bool = forall a string, t int :: {urb[a][t]} (has(urb, a) && 0 <= t && t < len(urb[a])) ==> 0 <= urb[a][t] && urb[a][t] < len(rs) && is(rs[urb[a][t]], machine.Monetary)
+
+//@ assumed func (s Store) GetAccount(ctx context.Context, address string) (r *ledger.Account, err error)
+//@   ensures err == nil ==> r != nil
+
+//@ func (m *Machine) ResolveResources(ctx context.Context, store Store) (err error)
+//@   property C27
+//@   requires wfResources(m.UnresolvedResources) && varsOK(m.Vars, m.UnresolvedResources) && len(m.UnresolvedResources) <= 65536
+//@   requires len(m.Resources) <= len(m.UnresolvedResources) && resolvedOK(m.Resources, m.UnresolvedResources) && m.UnresolvedResourceBalances != nil
+//@   modifies m
+//@   ensures err == nil ==> len(m.Resources) == len(m.UnresolvedResources) && resolvedOK(m.Resources, m.UnresolvedResources)
+//@   ensures m.UnresolvedResources == old(m.UnresolvedResources) && m.Vars == old(m.Vars)
+//@   ensures err == nil ==> balanceSlotsOK(m.UnresolvedResourceBalances, m.Resources)
+//@   requires balanceSlotsOK(m.UnresolvedResourceBalances, m.Resources)
+//@   loop 1:
+//@     invariant unchangedExcept(m, old(m), Resources, UnresolvedResourceBalances, resolveCalled) && m.UnresolvedResourceBalances != nil && involvedAccountsMap != nil
+//@     invariant len(m.Resources) <= len(m.UnresolvedResources) && resolvedOK(m.Resources, m.UnresolvedResources)
+//@     invariant balanceSlotsOK(m.UnresolvedResourceBalances, m.Resources)
+
+//@ assumed func (s Store) GetBalances(ctx context.Context, query BalanceQuery) (r Balances, err error)
+//@   ensures err == nil ==> forall a string, x string :: {r[a][x]} (has(r, a) && has(r[a], x)) ==> r[a][x] != nil
+//@   note the store returns a non-nil amount for every (account, asset) pair it lists
+
+//@ func (m *Machine) ResolveBalances(ctx context.Context, store Store) (err error)
+//@   property C27 C23
+//@   requires balanceSlotsOK(m.UnresolvedResourceBalances, m.Resources)
+//@   requires forall a machine.Address :: {has(m.Program.NeededBalances, a)} (has(m.Program.NeededBalances, a) && a < len(m.Resources)) ==> is(m.Resources[a], machine.AccountAddress)
+//@   requires forall a machine.Address, b machine.Address :: {has(m.Program.NeededBalances[a], b)} (has(m.Program.NeededBalances, a) && has(m.Program.NeededBalances[a], b) && b < len(m.Resources)) ==> (is(m.Resources[b], machine.Monetary) || is(m.Resources[b], machine.Asset))
+//@   modifies m
+//@   ensures err == nil ==> m.Balances != nil && wfBal(m.Balances)
+//@   loop 1:
+//@     invariant unchangedExcept(m, old(m)) && balancesQuery != nil && assignBalanceAsResource != nil
+//@     invariant forall a string :: {has(assignBalanceAsResource, a)} has(assignBalanceAsResource, a) ==> assignBalanceAsResource[a] != nil
+//@     invariant forall a string, x string, t int :: {assignBalanceAsResource[a][x][t]} (has(assignBalanceAsResource, a) && has(assignBalanceAsResource[a], x) && 0 <= t && t < len(assignBalanceAsResource[a][x])) ==> 0 <= assignBalanceAsResource[a][x][t] && assignBalanceAsResource[a][x][t] < len(m.Resources) && is(m.Resources[assignBalanceAsResource[a][x][t]], machine.Monetary)
+//@   loop 2:
+//@     invariant unchangedExcept(m, old(m)) && balancesQuery != nil && assignBalanceAsResource != nil
+//@     invariant forall a string :: {has(assignBalanceAsResource, a)} has(assignBalanceAsResource, a) ==> assignBalanceAsResource[a] != nil
+//@     invariant forall a string, x string, t int :: {assignBalanceAsResource[a][x][t]} (has(assignBalanceAsResource, a) && has(assignBalanceAsResource[a], x) && 0 <= t && t < len(assignBalanceAsResource[a][x])) ==> 0 <= assignBalanceAsResource[a][x][t] && assignBalanceAsResource[a][x][t] < len(m.Resources) && is(m.Resources[assignBalanceAsResource[a][x][t]], machine.Monetary)
+//@   loop 3:
+//@     invariant unchangedExcept(m, old(m), Balances) && m.Balances != nil && wfBal(m.Balances) && balancesQuery != nil
+//@   loop 4:
+//@     invariant unchangedExcept(m, old(m), Balances) && m.Balances != nil && wfBal(m.Balances) && balancesQuery != nil
+//@   loop 5:
+//@     invariant unchangedExcept(m, old(m), Balances, Resources) && m.Balances != nil && wfBal(m.Balances) && len(m.Resources) == len(old(m.Resources))
+//@     invariant forall a string, x string, t int :: {assignBalanceAsResource[a][x][t]} (has(assignBalanceAsResource, a) && has(assignBalanceAsResource[a], x) && 0 <= t && t < len(assignBalanceAsResource[a][x])) ==> 0 <= assignBalanceAsResource[a][x][t] && assignBalanceAsResource[a][x][t] < len(m.Resources) && is(m.Resources[assignBalanceAsResource[a][x][t]], machine.Monetary)
+//@   loop 6:
+//@     invariant unchangedExcept(m, old(m), Balances, Resources) && m.Balances != nil && wfBal(m.Balances) && len(m.Resources) == len(old(m.Resources))
+//@     invariant forall a string, x string, t int :: {assignBalanceAsResource[a][x][t]} (has(assignBalanceAsResource, a) && has(assignBalanceAsResource[a], x) && 0 <= t && t < len(assignBalanceAsResource[a][x])) ==> 0 <= assignBalanceAsResource[a][x][t] && assignBalanceAsResource[a][x][t] < len(m.Resources) && is(m.Resources[assignBalanceAsResource[a][x][t]], machine.Monetary)
+//@   loop 7:
+//@     invariant unchangedExcept(m, old(m), Balances, Resources) && m.Balances != nil && wfBal(m.Balances) && len(m.Resources) == len(old(m.Resources))
+//@     invariant forall a string, x string, t int :: {assignBalanceAsResource[a][x][t]} (has(assignBalanceAsResource, a) && has(assignBalanceAsResource[a], x) && 0 <= t && t < len(assignBalanceAsResource[a][x])) ==> 0 <= assignBalanceAsResource[a][x][t] && assignBalanceAsResource[a][x][t] < len(m.Resources) && is(m.Resources[assignBalanceAsResource[a][x][t]], machine.Monetary)
